@@ -1,6 +1,7 @@
 import Infretis.Lemmas.EngineLoopsPath
 import Infretis.Lemmas.EnginePropagate
 import Infretis.Lemmas.EngineLoopsLimit
+import Infretis.Lemmas.EngineFault
 /-!
 # C12 — every engine returns the trajectory it actually ran
 
@@ -28,6 +29,12 @@ Findings re-established here:
   full theorem for the repaired loop, which is what the tie agrees with now.
 * CP2K never reads a box from the program's output: `cp2k_frame_uses_own_box_partial` needs a constant box
   (documented NVT-only limitation of the engine).
+* OPEN (audit pass): LAMMPS and CP2K leave the MD program RUNNING when an exception leaves the polling loop's body
+  (order function raising on a frame, `OSError` of `write_xyz_trajectory`/`msg_file.write`, `KeyboardInterrupt` in
+  `sleep`): `body_exception_leaves_program_running_counterexample` (realistic length limit, confirmed on the real
+  engines with fake lmp / fake cp2k; tie signatures `C12:lammps|cp2k:program-left-running-after-exception`).
+  `program_stopped_unless_body_exception_partial` is what holds for the code as it is,
+  `guarded_program_stopped_on_every_exception` the full statement for the proposed repair (last section).
 -/
 namespace Infretis.C12
 open Infretis.Engine Infretis.EngineLoops
@@ -611,6 +618,59 @@ example : ∀ x : Frame, 0 ≤ (x.cid : Int) + x.vel → demoStep (flipV (demoSt
     simp only at hx
     omega
 
+/-! non-vacuity of `Reversible` (audit pass): the example above holds on a sub-domain only (`Nat` truncation), so it does
+not instantiate the hypothesis `Reversible step` (∀ states).  Free flight on the WHOLE integer line, stored in a `Nat`
+by the zig-zag code, is reversible everywhere and not the identity. -/
+
+def zigEnc (z : Int) : Nat := if 0 ≤ z then 2 * z.toNat else 2 * (-z).toNat - 1
+def zigDec (n : Nat) : Int := if n % 2 = 0 then (n / 2 : Nat) else -(((n + 1) / 2 : Nat) : Int)
+
+theorem zigDec_enc (z : Int) : zigDec (zigEnc z) = z := by
+  unfold zigDec zigEnc
+  by_cases h : 0 ≤ z
+  · simp only [h, if_true]
+    have : 2 * z.toNat % 2 = 0 := by omega
+    simp only [this, if_true]
+    omega
+  · simp only [h, if_false]
+    have h1 : (2 * (-z).toNat - 1) % 2 ≠ 0 := by omega
+    simp only [h1, if_false]
+    omega
+
+theorem zigEnc_dec (n : Nat) : zigEnc (zigDec n) = n := by
+  unfold zigDec zigEnc
+  by_cases h : n % 2 = 0
+  · simp only [h, if_true]
+    have : (0 : Int) ≤ ((n / 2 : Nat) : Int) := by omega
+    simp only [this, if_true]
+    omega
+  · simp only [h, if_false]
+    have : ¬ (0 : Int) ≤ -(((n + 1) / 2 : Nat) : Int) := by omega
+    simp only [this, if_false]
+    omega
+
+/-- free flight on the integer line -/
+def zigStep (f : Frame) : Frame := { f with cid := zigEnc (zigDec f.cid + f.vel) }
+
+theorem zigStep_reversible : Reversible zigStep := by
+  intro x
+  cases x with
+  | mk cid bid vel =>
+    simp only [zigStep, flipV, Frame.mk.injEq, and_true, zigDec_enc]
+    have : zigDec cid + vel + -vel = zigDec cid := by omega
+    rw [this, zigEnc_dec]
+
+/-- the hypotheses of `propagate_backward_retraces_forward` on a concrete reversible dynamics: forward from position 3
+    (code 6) with velocity −2 over the origin, backward from frame 3 of that trajectory (position −3, code 5) -/
+example : Reversible zigStep ∧
+    ((propagateInproc { demoCfg with left := -100, right := 100, maxlen := 4, ord := fun c _ _ => zigDec c } 1 zigStep true false
+        (fun n => if n = .user 1 then [⟨6, 100, -2⟩] else []) ⟨.user 1, some 0, false⟩).map (fun o => o.res.es.map (·.order)))
+      = some [3, 1, -1, -3] ∧
+    ((propagateInproc { demoCfg with left := -100, right := 100, maxlen := 4, ord := fun c _ _ => zigDec c } 1 zigStep true true
+        (fun n => if n = .user 2 then [⟨0, 0, 0⟩, ⟨0, 0, 0⟩, ⟨0, 0, 0⟩, ⟨5, 100, -2⟩] else []) ⟨.user 2, some 3, false⟩).map
+        (fun o => o.res.es.map (·.order))) = some [-3, -1, 1, 3] :=
+  ⟨zigStep_reversible, by decide +kernel, by decide +kernel⟩
+
 /-- **First frame is that point — LAMMPS / CP2K, composed `propagate`** (assumption on the MD program only: the
     first frame it writes is the configuration it was started from): index 0, own coordinates, own physical
     velocity; the box is the one the entry names (LAMMPS repaired pairing: the frame's own; CP2K: the box read
@@ -755,7 +815,8 @@ example : ((propagateGmx .repaired demoCfg (demoSched (fun t => t / 3) 30) 0 1 (
     on the first frame (`path.phasepoints[-1]` of an empty path) while the program is alive; the LAMMPS/CP2K loops have
     no `try/finally`, so the exception leaves `_propagate_from` with the program still running (GROMACS stops mdrun
     in `__exit__`: `gromacs_program_stopped_on_return` covers every error).  The same holds for ANY exception raised
-    inside the loop body (order function, reader).  `maxlen = 0` is not produced by the moves (`maxlen ≥ 2` there). -/
+    inside the loop body (order function, reader).  `maxlen = 0` is not produced by the moves (`maxlen ≥ 2` there);
+    a witness the moves DO produce: `body_exception_leaves_program_running_counterexample` (audit pass, last section). -/
 theorem lammps_index_error_leaves_program_running_counterexample :
     let R := extRun (.lammps .repaired) { demoCfg with maxlen := 0 } (demoSched (fun _ => 2) 30) 0 demoFrames 50
     R.raised = some .index ∧ R.dead = false ∧ R.killed = false ∧ R.es = [] ∧
@@ -808,6 +869,83 @@ example : ((propagateInproc { demoCfg with maxlen := 2 } 2 demoStep true false d
       (fun o => (o.res.es.map (·.order), o.res.success))) = some ([3, 5, 7, 9], true) ∧
     ((propagateInproc { demoCfg with maxlen := 9 } 2 demoStep false false demoStore ⟨.user 1, some 1, false⟩).map
       (fun o => (o.res.es.map (·.order), o.res.success))) = some ([3, 5, 7, 9], true) ∧ (0 : Nat) < 2 := by
+  decide +kernel
+
+/-! ## Audit pass: exceptions that leave the polling loop's body (LAMMPS / CP2K)
+
+Model: `Infretis/Model/EngineFault.lean` (`extRunF`: `extRun` with a foreign exception raised while frame `step_nr = k`
+is processed — after the `pop`s, before `add_to_path` — and `Guard.asIs` / `Guard.guarded` for the handler).
+The driver runs `extRunF` (op `extf`); the tie raises the exception inside the REAL engines (order function raising on
+the `k`-th frame of the loop, `write_xyz_trajectory` failing with ENOSPC) and compares state, path and process. -/
+
+open Infretis.EngineFault
+
+/-- **Nothing changes on runs without such an exception**: the faulty-loop model IS `extRun` (as found: always; with
+    the guard: whenever `extRun` does not end in IndexError, the only own exception raised inside the block). -/
+theorem fault_free_loop_is_extRun (kind : Kind) (c : Cfg) (sched : Sched) (code : Int) (frames : List Frame) (fuel : Nat) :
+    extRunF .asIs kind c sched code frames fuel none = { res := extRun kind c sched code frames fuel, body := false } ∧
+    ((extRun kind c sched code frames fuel).raised ≠ some .index →
+      extRunF .guarded kind c sched code frames fuel none = { res := extRun kind c sched code frames fuel, body := false }) :=
+  ⟨extRunF_asIs_none kind c sched code frames fuel, extRunF_guarded_none kind c sched code frames fuel⟩
+
+example : (extRun (.lammps .repaired) demoCfg (demoSched demoVis 8) 0 demoFrames 50).raised ≠ some .index ∧
+    (extRunF .guarded (.lammps .repaired) demoCfg (demoSched demoVis 8) 0 demoFrames 50 none).res.es.length = 6 := by
+  decide +kernel
+
+/-- **"The external program is stopped when propagation ends" is FALSE for LAMMPS and CP2K as they are** — with a
+    realistic length limit (20): the program (alive until tick 30) has written six frames, two arrive per poll; the
+    order function (or `write_xyz_trajectory`, `msg_file.write`) raises on the frame with `step_nr = 2`.  The exception
+    leaves `_propagate_from` with two frames in the path, no signal sent, the program still running.  Supersedes the
+    `maxlen = 0` witness of `lammps_index_error_leaves_program_running_counterexample` (which the moves never produce).
+    Confirmed on the real `LAMMPSEngine` / `CP2KEngine` (tie class `body-fault`). -/
+theorem body_exception_leaves_program_running_counterexample :
+    let R := extRunF .asIs (.lammps .repaired) demoCfg (demoSched (fun t => 2 * (t / 3 + 1)) 30) 0 demoFrames 50 (some 2)
+    let Q := extRunF .asIs (.cp2k 30) demoCfg (demoSched (fun t => 2 * (t / 3 + 1)) 30) 0 demoFrames 50 (some 2)
+    R.body = true ∧ R.res.dead = false ∧ R.res.killed = false ∧ R.res.es.length = 2 ∧ demoCfg.maxlen = 20 ∧
+    Q.body = true ∧ Q.res.dead = false ∧ Q.res.killed = false ∧ Q.res.es.length = 2 ∧
+    ¬ (∀ (g : Guard) (k : Kind) (fault : Option Nat),
+        (extRunF g k demoCfg (demoSched (fun t => 2 * (t / 3 + 1)) 30) 0 demoFrames 50 fault).res.raised ≠ some .fuel →
+        (extRunF g k demoCfg (demoSched (fun t => 2 * (t / 3 + 1)) 30) 0 demoFrames 50 fault).res.dead = true) := by
+  refine ⟨by decide +kernel, by decide +kernel, by decide +kernel, by decide +kernel, rfl,
+    by decide +kernel, by decide +kernel, by decide +kernel, by decide +kernel, ?_⟩
+  intro h
+  have := h .asIs (.lammps .repaired) (some 2) (by decide +kernel)
+  revert this
+  decide +kernel
+
+/-- **What holds for the code as it is**: the program is stopped on every way out of the loop EXCEPT an exception
+    raised by the loop body (guard `body = false`: it did not fire in this run) and the IndexError of
+    `lammps_index_error_leaves_program_running_counterexample`. -/
+theorem program_stopped_unless_body_exception_partial (kind : Kind) (c : Cfg) (sched : Sched) (code : Int)
+    (frames : List Frame) (fuel : Nat) (fault : Option Nat)
+    (hb : (extRunF .asIs kind c sched code frames fuel fault).body = false)
+    (h : (extRunF .asIs kind c sched code frames fuel fault).res.raised = none ∨
+         (extRunF .asIs kind c sched code frames fuel fault).res.raised = some .runtime) :
+    (extRunF .asIs kind c sched code frames fuel fault).res.dead = true :=
+  extRunF_asIs_program_stopped kind c sched code frames fuel fault hb h
+
+/-- the fault sits on frame 7, the crossing is found on frame 5: the exception never fires, the program is stopped -/
+example : (extRunF .asIs (.lammps .repaired) demoCfg (demoSched (fun t => 2 * (t / 3 + 1)) 30) 0 demoFrames 50 (some 7)).body = false ∧
+    (extRunF .asIs (.lammps .repaired) demoCfg (demoSched (fun t => 2 * (t / 3 + 1)) 30) 0 demoFrames 50 (some 7)).res.raised = none ∧
+    (extRunF .asIs (.lammps .repaired) demoCfg (demoSched (fun t => 2 * (t / 3 + 1)) 30) 0 demoFrames 50 (some 7)).res.killed = true := by
+  decide +kernel
+
+/-- **Full statement for the proposed repair** (`except BaseException: if exe.poll() is None: killpg; wait; raise` around
+    the block): the program is stopped on EVERY way out — return, RuntimeError, IndexError (also `maxlen = 0`), the
+    body's exception at any frame — for every schedule, exit code, frames, limit (out of fuel = still looping). -/
+theorem guarded_program_stopped_on_every_exception (kind : Kind) (c : Cfg) (sched : Sched) (code : Int)
+    (frames : List Frame) (fuel : Nat) (fault : Option Nat)
+    (h : (extRunF .guarded kind c sched code frames fuel fault).res.raised ≠ some .fuel) :
+    (extRunF .guarded kind c sched code frames fuel fault).res.dead = true :=
+  extRunF_guarded_program_stopped kind c sched code frames fuel fault h
+
+/-- the witness of the counterexample, guarded: the exception still leaves (`body`), two frames in the path, but SIGTERM
+    was sent and the program collected; and the `maxlen = 0` IndexError likewise -/
+example : (extRunF .guarded (.lammps .repaired) demoCfg (demoSched (fun t => 2 * (t / 3 + 1)) 30) 0 demoFrames 50 (some 2)).body = true ∧
+    (extRunF .guarded (.lammps .repaired) demoCfg (demoSched (fun t => 2 * (t / 3 + 1)) 30) 0 demoFrames 50 (some 2)).res.killed = true ∧
+    (extRunF .guarded (.lammps .repaired) demoCfg (demoSched (fun t => 2 * (t / 3 + 1)) 30) 0 demoFrames 50 (some 2)).res.es.length = 2 ∧
+    (extRunF .guarded (.lammps .repaired) { demoCfg with maxlen := 0 } (demoSched (fun _ => 2) 30) 0 demoFrames 50 none).res.raised = some .index ∧
+    (extRunF .guarded (.lammps .repaired) { demoCfg with maxlen := 0 } (demoSched (fun _ => 2) 30) 0 demoFrames 50 none).res.dead = true := by
   decide +kernel
 
 end Infretis.C12
